@@ -19,6 +19,18 @@ import types
 OFF_TIME, OFF_PERF, OFF_MONO = 1000.0, 5.0, 7.0
 
 
+from harness.stub_incomplete import StubIncomplete
+
+
+class _StandIn:
+    """base of the virtual primitives: using a part of the real API they do not provide is reported as such"""
+
+    def __getattr__(self, name):
+        if name.startswith("__"):
+            raise AttributeError(name)
+        raise StubIncomplete(f"virtual {type(self).__name__} has no attribute {name!r}")
+
+
 class Deadlock(Exception):
     pass
 
@@ -201,7 +213,7 @@ def set_sched(s):
 
 
 # -------------------------------------------------------------------------- primitives
-class Event:
+class Event(_StandIn):
     _names = []
 
     def __init__(self):
@@ -250,7 +262,7 @@ class Event:
         return bool(r)
 
 
-class RLock:
+class RLock(_StandIn):
     """Re-entrant lock.  Acquire/release are yield points only in line-level mode (SCHED.lock_yields)."""
 
     def __init__(self):
@@ -380,7 +392,7 @@ class Empty(Exception):
     pass
 
 
-class Queue:
+class Queue(_StandIn):
     """queue.Queue restricted to the non-blocking operations pamiq_core uses; each is a yield point."""
 
     class _Cond:
@@ -446,6 +458,9 @@ class SimThreadingModule(types.ModuleType):
         self.Thread = Thread
 
     def __getattr__(self, name):
+        if name in ("Condition", "Semaphore", "BoundedSemaphore", "Barrier", "Timer"):
+            # the real ones would block the OS thread without yielding to the virtual scheduler
+            raise StubIncomplete(f"virtual threading has no {name}")
         return getattr(_rt, name)
 
 
